@@ -712,7 +712,7 @@ def c01_extra(tier, seed, lean):
             res['info'].update(history_theorem_coverage_of_protocol_lines=dict(
                 sampled_lines=tot['lines'], valid_calls=tot['valid'], with_counterpart_in_history_language=tot['bridged'],
                 satisfying_its_precondition_in_the_state_reached=tot['covered'],
-                note='Bridge.toMOp / MOp.valid evaluated by svcover on every k-th generated case of three configurations; the remaining valid calls are the single-pass insert in the MIDDLE of the sequence and resize (n, own element)'))
+                note='Bridge.toMOp / MOp.valid evaluated by svcover on every k-th generated case of three configurations; the remaining valid calls are the single-pass insert in the MIDDLE of the sequence (its iterator protocol is a theorem, C15; its contents are not) and insert of an empty range'))
         else:
             res['info'].update(history_theorem_coverage_error=out[-300:])
     except Exception as e:
